@@ -89,6 +89,19 @@ func gen(r *harn.Rng, tier string) interface{} {
 	ips := append([]string{"", "0.0.0.0", "127.0.0.1", "10.0.0.99"}, sc.HostIPs...)
 	for w := 0; w < nw; w++ {
 		var ops []bindOp
+		if r.Bool(0.25) {
+			// bind, close, re-bind the same address, close the stale handle again, bind once more, probe
+			ip := append([]string{"", "127.0.0.1"}, sc.HostIPs...)[r.Intn(2+len(sc.HostIPs))]
+			port := 4100 + w
+			ops = append(ops, bindOp{K: "listenudp", IP: ip, Port: port}, bindOp{K: "close", Ref: 0},
+				bindOp{K: "listenudp", IP: ip, Port: port}, bindOp{K: "reclose", Ref: 0},
+				bindOp{K: "listenudp", IP: ip, Port: port})
+			pip := ip
+			if pip == "" {
+				pip = sc.HostIPs[0]
+			}
+			ops = append(ops, bindOp{K: "probe", IP: pip, Port: port})
+		}
 		for i, n := 0, r.Range(2, 10); i < n; i++ {
 			x := r.Intn(100)
 			op := bindOp{IP: ips[r.Intn(len(ips))], Port: r.Pick(0, 0, 4000, 4000, 4001, 5000, 5001)}
@@ -103,8 +116,11 @@ func gen(r *harn.Rng, tier string) interface{} {
 				op.Port = 9000
 			case x < 70:
 				op.K = "dialudp"
-			case x < 88:
+			case x < 82:
 				op.K = "close"
+				op.Ref = r.Intn(8)
+			case x < 88:
+				op.K = "reclose" // Close an already closed socket once more: must change nothing
 				op.Ref = r.Intn(8)
 			default:
 				op.K = "probe"
@@ -357,6 +373,7 @@ func runBind(env *simrt.Env, sc *scenario) {
 		w := w
 		hs = append(hs, env.Go(fmt.Sprintf("binder%d", w), func() {
 			var mine []*sock
+			var closedHandles []interface{ Close() error }
 			for i, o := range sc.Workers[w] {
 				if env.Failed() {
 					return
@@ -374,8 +391,10 @@ func runBind(env *simrt.Env, sc *scenario) {
 					var err error
 					if s.conn != nil {
 						err = s.conn.Close()
+						closedHandles = append(closedHandles, s.conn)
 					} else {
 						err = s.nc.Close()
+						closedHandles = append(closedHandles, s.nc)
 					}
 					s.conn, s.nc = nil, nil
 					if err != nil {
@@ -386,6 +405,12 @@ func runBind(env *simrt.Env, sc *scenario) {
 					if !concurrent {
 						delete(open, key(s.ip, s.port))
 					}
+				case "reclose":
+					if len(closedHandles) == 0 {
+						continue
+					}
+					_ = closedHandles[o.Ref%len(closedHandles)].Close() // an error is fine; an effect is not
+					env.Fault("repeated-close")
 				case "probe":
 					if concurrent {
 						continue
